@@ -198,6 +198,13 @@ macro_rules! exec_smul_impl {
     q.mul_assign(k);
     out.insert("mul_assign".into(), proj_to_j(&q));
     out.insert("affine_mul".into(), proj_to_j(&pa.mul(k)));
+    // the same through the scalar-field type (Into<Repr> of an Fr element), for canonical k
+    if let Ok(kf) = <pairing::bls12_381::Fr as ff::PrimeField>::from_repr(k) {
+        let mut q2 = p;
+        q2.mul_assign(kf);
+        out.insert("mul_assign_fr".into(), proj_to_j(&q2));
+        out.insert("affine_mul_fr".into(), proj_to_j(&pa.mul(kf)));
+    }
     // table-driven paths with the library's own tables
     // the caller's buffers are NOT fresh: they hold other points (reused tables)
     let junk = { let mut t = <$G>::one(); t.double(); t.into_affine() };
